@@ -443,3 +443,5 @@ def run(ctx, rep):
     rice_escape_rules(F, OkImplies(F, ctx.cg()), rep, "C02")
     from rules import C16
     C16.increment_last_rules(F, rep, "C02.num")
+    from rules import C08
+    C08.protocol(ctx, rep, "C02.front")
